@@ -1,0 +1,5 @@
+//go:build !verif
+
+package types
+
+func verifRoute(*Router, Port) (TIBCModule, bool) { return nil, false }
